@@ -167,6 +167,12 @@ fn convert_url(
     object_bbox: Option<NonZeroRect>,
     cache: &mut converter::Cache,
 ) -> Result<Option<Arc<Filter>>, ()> {
+    // Break reference cycles (a filter can reference itself via `feImage`).
+    let state = &match state.enter_def(node) {
+        Some(v) => v,
+        None => return Err(()),
+    };
+
     let units = convert_units(node, AId::FilterUnits, Units::ObjectBoundingBox);
     let primitive_units = convert_units(node, AId::PrimitiveUnits, Units::UserSpaceOnUse);
 
